@@ -6,8 +6,6 @@
 From KB Require Export Model.ReadSys Model.C03Cases.
 Local Open Scope N_scope.
 
-Definition pcall := (bytes * bytes * list part)%type.     (* GetPartitions(start, end) = result *)
-
 Record c13_group := mk_group {
   g_a : bytes; g_b : bytes; g_rev : N;                 (* raw range and read revision (0 = current) *)
   g_base : list_resp;                                  (* unpartitioned List a b rev, no limit *)
@@ -20,13 +18,6 @@ Record c13_group := mk_group {
 Record c13_tiling := mk_tiling { t_calls : list pcall; t_groups : list c13_group }.
 
 Record c13_case := mk_c13 { p_ck : bytes; p_dump : raw_store; p_cur : N; p_tilings : list c13_tiling }.
-
-(* the recorded partition function; an unrecorded call yields no partition at all, so that it shows *)
-Fixpoint parts_of (calls : list pcall) (s e : bytes) : list part :=
-  match calls with
-  | [] => []
-  | (s', e', ps) :: t => if beqb s' s && beqb e' e then ps else parts_of t s e
-  end.
 
 Fixpoint pairs_of {A} (l : list A) : list (A * A) :=
   match l with
@@ -61,13 +52,6 @@ Definition c13_check (c : c13_case) : bool :=
   forallb (fun t => forallb (group_check s fv (p_cur c) (t_calls t)) (t_groups t)) (p_tilings c).
 
 (* ---------- oracle ---------- *)
-Fixpoint insert_okv (x : okv) (l : list okv) : list okv :=
-  match l with
-  | [] => [x]
-  | y :: t => if bltb (okv_key y) (okv_key x) then y :: insert_okv x t else x :: l
-  end.
-Definition sort_okv (l : list okv) : list okv := fold_right insert_okv [] l.
-
 Definition group_verdict (s : raw_store) (cur : N) (g : c13_group) : option N :=
   let R := eff_rev (g_rev g) cur in
   match g_base g with
